@@ -13,8 +13,47 @@ import (
 type (
 	Locker = stdsync.Locker
 	Map    = stdsync.Map
-	Pool   = stdsync.Pool
 )
+
+// Pool stands in for sync.Pool. It belongs to one simulated run: objects put in it during an
+// earlier run (another bubble) are forgotten, because timers and channels must not cross bubbles.
+// As with the real pool, Get may or may not find a previously Put object (the tape decides).
+type Pool struct {
+	New   func() any
+	items []any
+	epoch uint64
+}
+
+func (p *Pool) sync() {
+	if e := sim.Epoch(); p.epoch != e {
+		p.epoch = e
+		p.items = nil
+	}
+}
+
+func (p *Pool) Get() any {
+	sim.Pre("Pool.Get")
+	p.sync()
+	if n := len(p.items); n > 0 && sim.Choose(4, "pool-drop") != 3 {
+		x := p.items[n-1]
+		p.items = p.items[:n-1]
+		return x
+	}
+	p.items = nil
+	if p.New != nil {
+		return p.New()
+	}
+	return nil
+}
+
+func (p *Pool) Put(x any) {
+	sim.Pre("Pool.Put")
+	p.sync()
+	if x == nil {
+		return
+	}
+	p.items = append(p.items, x)
+}
 
 // Mutex: waiters are all made ready on Unlock and re-contend, so the scheduler (the tape) decides
 // who gets the lock.
@@ -90,6 +129,24 @@ func (m *RWMutex) Lock() {
 	}
 	m.writersWaiting--
 	m.writer = true
+}
+
+func (m *RWMutex) TryLock() bool {
+	sim.Pre("RWMutex.TryLock")
+	if m.writer || m.readers > 0 {
+		return false
+	}
+	m.writer = true
+	return true
+}
+
+func (m *RWMutex) TryRLock() bool {
+	sim.Pre("RWMutex.TryRLock")
+	if m.writer || m.writersWaiting > 0 {
+		return false
+	}
+	m.readers++
+	return true
 }
 
 func (m *RWMutex) Unlock() {
